@@ -1,7 +1,8 @@
 /-
   Spec — independent mathematical specifications of the text built-ins (property C10), written on
   `List UInt8` and unbounded integers, with no reference to the model's `Int64` index arithmetic.
-  Model/Builtins.lean is proved equal to these in Proofs/C10.lean (outside the recorded finding regions).
+  Model/Builtins.lean is proved equal to these in Proofs/C10.lean, for all arguments (the former
+  finding regions — substr/subraw at INT64_MIN, hex pad counts near INT64_MAX — were repaired).
 -/
 namespace BlocV.Spec.Text
 
@@ -33,6 +34,111 @@ def join (sep : List UInt8) : List (List UInt8) → List UInt8
   | [] => []
   | [p] => p
   | p :: q :: ps => p ++ sep ++ join sep (q :: ps)
+
+/-! ### hex -/
+
+/-- One lower-case hexadecimal digit (`0`–`9`, `a`–`f`) as a byte. -/
+def hexDigit (d : Nat) : UInt8 := UInt8.ofNat (if d < 10 then 48 + d else 87 + d)
+
+/-- The `w` low-order hexadecimal digits of `u`, most significant first (zero padded). -/
+def hexFixed (u : Nat) : Nat → List UInt8
+  | 0 => []
+  | w + 1 => hexDigit (u / 16 ^ w % 16) :: hexFixed u w
+
+/-- Drop leading `'0'` characters as long as more than `keep` characters remain. -/
+def stripZeros (keep : Nat) : List UInt8 → List UInt8
+  | [] => []
+  | d :: ds => if d = 48 ∧ keep < ds.length + 1 then stripZeros keep ds else d :: ds
+
+/-- `hex(v [, n])`: the 64-bit two's-complement pattern of `v` in lower-case hexadecimal, without
+leading zeros but never fewer than `n` digits and never fewer than one — i.e. the 16-digit zero-padded
+numeral with leading zeros removed while more than `max 1 (min n 16)` digits remain. Every pad count is
+meaningful: `n ≤ 1` (negative included) asks for no padding, `n ≥ 16` (INT64_MAX included) for all 16
+digits. (Absent pad count = 0.) -/
+def hex (v n : Int) : List UInt8 :=
+  stripZeros (max 1 (min n 16)).toNat (hexFixed (v % 2 ^ 64).toNat 16)
+
+/-- Value of one lower-case hexadecimal digit character. -/
+def hexDigitVal (c : UInt8) : Nat := if c < 58 then c.toNat - 48 else c.toNat - 87
+
+/-- Value of a numeral of lower-case hexadecimal digits (inverse of `hex` on the digits). -/
+def hexValue (ds : List UInt8) : Nat := ds.foldl (fun a c => a * 16 + hexDigitVal c) 0
+
+theorem hexFixed_length (u : Nat) : ∀ w, (hexFixed u w).length = w
+  | 0 => rfl
+  | w + 1 => by simp [hexFixed, hexFixed_length u w]
+
+theorem stripZeros_suffix (keep : Nat) : ∀ l : List UInt8, stripZeros keep l <:+ l
+  | [] => List.suffix_refl _
+  | d :: ds => by
+    unfold stripZeros
+    split
+    · exact List.IsSuffix.trans (stripZeros_suffix keep ds) (List.suffix_cons _ _)
+    · exact List.suffix_refl _
+
+theorem stripZeros_length (keep : Nat) : ∀ l : List UInt8, min keep l.length ≤ (stripZeros keep l).length
+  | [] => by simp [stripZeros]
+  | d :: ds => by
+    unfold stripZeros
+    split
+    · rename_i h
+      have := stripZeros_length keep ds
+      simp only [List.length_cons]
+      omega
+    · omega
+
+/-- `hex` yields between `max 1 (min n 16)` and 16 characters, a suffix of the 16-digit numeral. -/
+theorem hex_length (v n : Int) : (max 1 (min n 16)).toNat ≤ (hex v n).length ∧ (hex v n).length ≤ 16 := by
+  unfold hex
+  have h1 := stripZeros_length (max 1 (min n 16)).toNat (hexFixed (v % 2 ^ 64).toNat 16)
+  have h2 := (stripZeros_suffix (max 1 (min n 16)).toNat (hexFixed (v % 2 ^ 64).toNat 16)).length_le
+  rw [hexFixed_length] at h1 h2
+  omega
+
+theorem hexDigitVal_fin : ∀ n : Fin 16, hexDigitVal (hexDigit n.val) = n.val := by decide +kernel
+
+theorem hexDigitVal_hexDigit (d : Nat) (h : d < 16) : hexDigitVal (hexDigit d) = d := hexDigitVal_fin ⟨d, h⟩
+
+theorem foldl_hexFixed (u : Nat) : ∀ (w a : Nat),
+    (hexFixed u w).foldl (fun a c => a * 16 + hexDigitVal c) a = a * 16 ^ w + u % 16 ^ w := by
+  intro w
+  induction w with
+  | zero => intro a; simp [hexFixed, Nat.mod_one]
+  | succ w ih =>
+    intro a
+    simp only [hexFixed, List.foldl_cons]
+    rw [ih, hexDigitVal_hexDigit _ (Nat.mod_lt _ (by decide)), Nat.mod_pow_succ, Nat.pow_succ]
+    rw [Nat.add_mul, Nat.mul_assoc, Nat.mul_comm 16 (16 ^ w), Nat.mul_comm (u / 16 ^ w % 16)]
+    omega
+
+theorem hexValue_eq (ds : List UInt8) : hexValue ds = ds.foldl (fun a c => a * 16 + hexDigitVal c) 0 := rfl
+
+theorem hexValue_stripZeros (keep : Nat) : ∀ l : List UInt8, hexValue (stripZeros keep l) = hexValue l
+  | [] => rfl
+  | d :: ds => by
+    unfold stripZeros
+    split
+    · rename_i h
+      rw [hexValue_stripZeros keep ds, h.1]
+      rfl
+    · rfl
+
+/-- The digits of `hex v n` denote the 64-bit two's-complement pattern of `v`, whatever the pad count. -/
+theorem hexValue_hex (v n : Int) : hexValue (hex v n) = (v % 2 ^ 64).toNat := by
+  unfold hex
+  rw [hexValue_stripZeros, hexValue_eq, foldl_hexFixed]
+  have : (v % 2 ^ 64).toNat < 16 ^ 16 := by
+    have h1 : 0 ≤ v % 2 ^ 64 := Int.emod_nonneg _ (by decide)
+    have h2 : v % 2 ^ 64 < 2 ^ 64 := Int.emod_lt_of_pos _ (by decide)
+    omega
+  rw [Nat.mod_eq_of_lt this]; omega
+
+example : hex 255 4 = "00ff".toUTF8.toList := by decide +kernel
+example : hex 255 0 = "ff".toUTF8.toList := by decide +kernel
+example : hex 0 (-5) = "0".toUTF8.toList := by decide +kernel
+example : hex (-1) 0 = "ffffffffffffffff".toUTF8.toList := by decide +kernel
+example : hex 1 9223372036854775807 = "0000000000000001".toUTF8.toList := by decide +kernel
+example : hexValue (hex 48879 9) = 48879 := by decide +kernel
 
 theorem substr_infix (s : List UInt8) (pos : Int) (count : Option Int) : substr s pos count <:+: s := by
   have key : ∀ (a n : Int), (if 0 ≤ a then (s.drop a.toNat).take n.toNat else []) <:+: s := by
